@@ -180,13 +180,15 @@ def kindOfClass : ServerRunner.Class → Kind
 def classAt (s : Script) (i : Nat) : Option ServerRunner.Class :=
   ((runBatch s).log.find? (fun e => e.1 == i)).map (·.2)
 
+/-- case i of a batch that was spawned -/
+def ranCase (mk : Marks) (s : Script) (i : Nat) : Case :=
+  { name := caseName s i
+    kind := match classAt s i with | some c => kindOfClass c | none => .missing
+    mark := markOf mk (caseName s i)
+    feedback := (notesOf s).any (fun e => e.1 == caseName s i) }
+
 /-- the cases of a batch that was spawned -/
-def ranCases (mk : Marks) (s : Script) : List Case :=
-  (List.range s.cases.length).map fun i =>
-    { name := caseName s i
-      kind := match classAt s i with | some c => kindOfClass c | none => .missing
-      mark := markOf mk (caseName s i)
-      feedback := (notesOf s).any (fun e => e.1 == caseName s i) }
+def ranCases (mk : Marks) (s : Script) : List Case := (List.range s.cases.length).map (ranCase mk s)
 
 /-- the cases of a batch that was never spawned -/
 def missingCases (mk : Marks) (s : Script) : List Case :=
